@@ -210,7 +210,9 @@ func (k msgServer) RotateValidatorByHalfRRTokenHolder(goCtx context.Context, msg
 		if ok {
 			if content.Offender == sdk.ValAddress(addr).String() {
 				content.Offender = sdk.ValAddress(rotatedAddr).String()
-				any, err := codectypes.NewAnyWithValue(msg)
+				// store the UPDATED PROPOSAL CONTENT back (the message is not a proposal content:
+				// every later GetProposal / GetProposals would panic while unpacking it)
+				any, err := codectypes.NewAnyWithValue(content)
 				if err != nil {
 					return nil, err
 				}
@@ -383,7 +385,9 @@ func (k msgServer) RotateRecoveryAddress(goCtx context.Context, msg *types.MsgRo
 		if ok {
 			if content.Offender == sdk.ValAddress(addr).String() {
 				content.Offender = sdk.ValAddress(rotatedAddr).String()
-				any, err := codectypes.NewAnyWithValue(msg)
+				// store the UPDATED PROPOSAL CONTENT back (the message is not a proposal content:
+				// every later GetProposal / GetProposals would panic while unpacking it)
+				any, err := codectypes.NewAnyWithValue(content)
 				if err != nil {
 					return nil, err
 				}
